@@ -27,15 +27,16 @@ FUNCTIONS = ["ioflo.base.acting.Suspender.action/deactivize/deactivate", "ioflo.
              "ioflo.base.needing.Need (symbolic comparisons)", "ioflo.base.building.Builder.build (concrete text)"]
 ASSUMPTIONS = [
     "program family: one framer of N frames (arbitrary forest, arbitrary first), one conditional auxiliary on a frame of the start outline "
-    "(2 frames: q0 --y>=1--> q1 'done me'; or 1 frame with 'done me' = completes immediately), one transition from a frame of the start outline",
+    "(2 frames: q0 --y>=1--> q1 'done me'; or 1 frame with 'done me' = completes immediately; `reuse` shards: the same auxiliary is also named by a second frame and has completed once before the symbolic ticks), one transition from a frame of the start outline",
     "share values integers in [0,1]; prelude concrete (start; for the `running` shards one more tick that activates the auxiliary), the following 1-3 ticks fully symbolic",
+    "`reuse` shards: entry guards of the main framer's frames are 1 in the symbolic ticks",
     "exit actions of frames that were suspended when the framer left them are ignored in the comparison (their absence is C06's known finding)",
 ] + ["reference choice where the statement is silent: " + s for s in floref.SILENT]
 
 
-def h(sym, n, symticks, parent, aux_frames, end, running=False):
+def h(sym, n, symticks, parent, aux_frames, end, running=False, reuse=False):
     prog, info = flostep.family(sym, n, ngo=1, auxes=("cond",), parent=parent, near_in_cur=True, host_in_cur=True,
-                                aux_frames=aux_frames)
+                                aux_frames=aux_frames, cond_second_host=reuse)
     controls = [START]
     plan = [{"*": 1}]
     if running:     # concrete prelude tick: the auxiliary's condition holds, it does not complete, no transition
@@ -44,6 +45,16 @@ def h(sym, n, symticks, parent, aux_frames, end, running=False):
         for (name, kind, host) in info["aux"]:
             pre["y_" + name] = 0
         plan.append(pre)
+    if reuse:       # second concrete prelude tick: the auxiliary completes by itself while its first main frame stays active
+        controls.append(RUN)
+        pre2 = {"*": 0}
+        for (name, kind, host) in info["aux"]:
+            pre2["y_" + name] = 1
+            pre2["h_" + name] = 1
+        for i in range(n):
+            pre2["g%d" % i] = 1
+        plan.append(pre2)
+        plan += [dict(("g%d" % i, 1) for i in range(n))] * symticks     # entry guards are not this shard's subject
     controls += [RUN] * symticks + ([end] if end is not None else [])
     auxname = "a0"
     mainidx = None
@@ -100,21 +111,26 @@ def h(sym, n, symticks, parent, aux_frames, end, running=False):
 def obligations(tier):
     out = []
     if tier == "quick":
-        cfgs = [(3, 1, 2, None, False), (3, 1, 1, STOP, False), (3, 2, 2, None, True), (3, 1, 2, STOP, True)]
+        cfgs = [(3, 1, 2, None, False), (3, 1, 1, STOP, False), (3, 2, 2, None, True), (3, 1, 2, STOP, True),
+                (3, 2, 2, None, True, True)]
     else:
         cfgs = [(3, 3, 2, STOP, False), (3, 2, 1, ABORT, False), (3, 3, 2, None, True), (3, 2, 2, ABORT, True),
-                (4, 2, 2, None, False), (4, 2, 2, STOP, True)]
-    for (n, symticks, aux_frames, end, running) in cfgs:
+                (4, 2, 2, None, False), (4, 2, 2, STOP, True), (3, 3, 2, None, True, True), (4, 2, 2, None, True, True)]
+    for cfg in cfgs:
+        (n, symticks, aux_frames, end, running) = cfg[:5]
+        reuse = cfg[5] if len(cfg) > 5 else False
         for parent in (flostep.QUICK_FORESTS[n] if tier == "quick" else flostep.all_forests(n)):
             covers = []
-            if aux_frames == 2:
+            if aux_frames == 2 and not reuse:
                 covers = ["aux-running"] + (["suspended-tick"] if (running or symticks >= 2) else [])
                 if running and symticks >= 2:
                     covers.append("completed-and-resumed")
-            out.append(Ob("step/N%d-%s-sym%d-aux%d-%s/%s" % (n, "running" if running else "fresh", symticks, aux_frames,
+            if reuse:
+                covers = ["aux-running"]
+            out.append(Ob("step/N%d-%s-sym%d-aux%d-%s/%s" % (n, ("reuse" if reuse else "running") if running else "fresh", symticks, aux_frames,
                                                           {None: "run", 0: "stop", 3: "abort"}[end],
                                                           "".join("r" if q < 0 else str(q) for q in parent)),
-                          h, dict(n=n, symticks=symticks, parent=parent, aux_frames=aux_frames, end=end, running=running),
+                          h, dict(n=n, symticks=symticks, parent=parent, aux_frames=aux_frames, end=end, running=running, reuse=reuse),
                           budget=600 if tier == "quick" else 2400, covers=covers,
                           bounds=dict(frames=n, forest=parent, first="any", aux_frames=aux_frames, symbolic_ticks=symticks,
                                       prelude="start" + (" + one tick activating the conditional auxiliary" if running else ""),
